@@ -123,3 +123,71 @@ func ruleJ5(c *an.Ctx) {
 	c.Floor("J5", "values handed out by the key encoders", n, 2)
 }
 
+
+// J7: every map-keyed part of a fork id contributes its key.  ForkId.forkId builds the id string
+// part by part; array-indexed parts are folded into one number, a map-keyed part is written as
+// `fork_<key>` and the function then recurses for the remaining parts.  A recursive call that
+// starts AFTER the current part (`start+i+1`) skips that part; that is right only if the part's key
+// has just been written, or if the part cannot distinguish anything (its range has exactly one
+// key).  Otherwise two forks that differ only in that key get the same id - the same directory and
+// journal name - and the jobs of both keys run on top of each other.
+func ruleJ7(c *an.Ctx) {
+	p := c.P
+	fn := c.NeedFunc(pkgCore, "(ForkId).forkId")
+	if fn == nil {
+		return
+	}
+	_ = p
+	if len(fn.Params) < 3 {
+		c.Undecided("J7", "anchor((ForkId).forkId)", fn.Pos(), "unexpected signature")
+		return
+	}
+	start := ssa.Value(fn.Params[2])
+	isStartPlusI := func(v ssa.Value) bool {
+		b, ok := v.(*ssa.BinOp)
+		return ok && b.Op == token.ADD && (b.X == start || b.Y == start)
+	}
+	isLength := func(v ssa.Value) bool {
+		cl, ok := v.(*ssa.Call)
+		if !ok {
+			return false
+		}
+		if cl.Call.IsInvoke() {
+			return cl.Call.Method.Name() == "Length"
+		}
+		return cl.Call.StaticCallee() != nil && cl.Call.StaticCallee().Name() == "Length"
+	}
+	n := 0
+	an.Instrs(fn, func(in ssa.Instruction) {
+		cl, ok := in.(*ssa.Call)
+		if !ok || cl.Call.StaticCallee() != fn || len(cl.Call.Args) < 3 {
+			return
+		}
+		e := cl.Call.Args[2]
+		b, ok := e.(*ssa.BinOp)
+		if !ok || b.Op != token.ADD {
+			return
+		}
+		skips := (an.IsIntConst(b.Y, 1) && isStartPlusI(b.X)) || (an.IsIntConst(b.X, 1) && isStartPlusI(b.Y))
+		if !skips {
+			return // restarts at the current part (start+i): the part is handled by the callee
+		}
+		n++
+		w := an.Query{
+			Fn:     fn,
+			Target: func(x ssa.Instruction) bool { return x == in },
+			Barrier: func(x ssa.Instruction) bool {
+				xc, ok := x.(*ssa.Call)
+				return ok && xc.Call.StaticCallee() != nil && (xc.Call.StaticCallee().Name() == "writeSafeKey" || xc.Call.StaticCallee().Name() == "makeKeySafe")
+			},
+			BarrierEdge: func(from, to *ssa.BasicBlock) bool {
+				return an.EdgeHolds(from, to, func(r an.Rel) bool {
+					return r.Op == token.EQL && ((isLength(r.X) && an.IsIntConst(r.Y, 1)) || (isLength(r.Y) && an.IsIntConst(r.X, 1)))
+				})
+			},
+		}.Find()
+		c.Check("J7", "skipped-part-wrote-its-key-or-has-one-key@(ForkId).forkId", in.Pos(), w == nil,
+			"the recursion continues after the current part although its key was not written and its range may hold several keys: forks [i,\"a\"] and [i,\"b\"] of a map call nested in an array call get the same id, directory and journal name; "+c.WitnessString(w))
+	})
+	c.Floor("J7", "recursive calls of forkId that skip the current part", n, 1)
+}
